@@ -33,7 +33,8 @@
      internals, MXCSR / x87 control word (not saved by the code; the harness
      reports whether they differ across switches). *)
 From Coq Require Import List ZArith Lia.
-From LF Require Import Conc CtxIsa gen.CtxGen CtxProofs.
+From LF Require Import Conc CtxIsa CtxProofs.
+From LF Require Import gen.CtxGen.
 Import ListNotations.
 Open Scope Z_scope.
 
@@ -85,13 +86,13 @@ Qed.
 Print Assumptions swap_sequence.
 
 (* Switching into a context built by the generated init sequence (stack
-   [base, base+size), size >= 103 bytes; the ten initial words [sp, sp+72) are
+   [base, base+size), size >= init_min_size (103 bytes for the pinned source); the ten initial words [sp, sp+72) are
    still as init left them when the switch happens) enters the run function with
    rdi = param, rsp = 8 mod 16 (as after a call), rsp inside the private stack
    with the dummy return address 0 on top, callee-saved registers 0, and leaves
    the caller suspended in the standard layout. *)
 Theorem swap_fresh : forall la m base size param fn mem0 mem1 sp,
-  103 <= size ->
+  init_min_size <= size ->
   init_context init_top_back_words init_align_mask init_pushes base size param fn mem0
     = Some (sp, mem1) ->
   (forall a, sp <= a < sp + 72 -> mm m a = mem1 a) ->
@@ -116,7 +117,7 @@ Print Assumptions swap_fresh.
 
 (* and the init sequence always succeeds on such a stack, writes only inside it *)
 Theorem init_builds_frame : forall base size param fn mem,
-  103 <= size ->
+  init_min_size <= size ->
   exists sp mem',
     init_context init_top_back_words init_align_mask init_pushes base size param fn mem
       = Some (sp, mem') /\
@@ -189,6 +190,8 @@ Definition ex_r2 := ex_next ex_r1 (69592 - 64) 1 0 200.         (* 1 -> 0       
 Definition ex_r3 := ex_next ex_r2 (32768 - 128) 0 1 300.        (* 0 -> 1        *)
 Definition ex_r4 := ex_next ex_r3 (69592 - 64) 1 0 400.         (* 1 -> 0        *)
 
+Example ex_min_size : init_min_size <= 4096.
+Proof. vm_compute. discriminate. Qed.
 Example ex_fresh_entry : ex_obs ex_r1 = [1; 9000; 42; 69592; 0; 0; 0; 0; 0; 0] /\ 69592 mod 16 = 8.
 Proof. vm_compute. split; reflexivity. Qed.
 Example ex_back_to_0 : ex_obs ex_r2 = [1; 7000; 0; 32768; 101; 102; 103; 104; 105; 106].
@@ -253,8 +256,11 @@ Proof. vm_compute. reflexivity. Qed.
 
 Example ex_first_switch : exists m1, exec ex_la swap_code (w_m ex_w0) = Exited m1.
 Proof.
-  replace (w_m ex_w0) with ex_m0 by reflexivity. fold ex_r1.
-  pose proof ex_r1_exited as X1. destruct ex_r1 as [m1| |]; try discriminate X1. eauto.
+  assert (A : exists m1, ex_r1 = Exited m1).
+  { pose proof ex_r1_exited as X1. destruct ex_r1 as [m1| |]; try discriminate X1. eauto. }
+  assert (B1 : ex_r1 = exec ex_la swap_code ex_m0) by reflexivity.
+  assert (B2 : ex_m0 = w_m ex_w0) by reflexivity.
+  destruct A as [m1 E]. exists m1. rewrite <- B2, <- B1. exact E.
 Qed.
 
 Example ex_two_switches_reachable : exists w2,
